@@ -130,7 +130,7 @@ def layout():
 def strings():
     n = 0
     ESCQ = '\\"'          # an escaped double quote inside the literal: stands for the character "
-    alpha = ['a', '#', '\\', '{', ' ', "'", ']', '-', '\x0c', '\u2028', '\x85', ESCQ]     # incl. characters str.splitlines() would split at
+    alpha = ['a', '#', '\\', '{', ' ', "'", ']', '-', '\x0c', '\u2028', '\x85', ESCQ, '\\n', '\\t']     # backslash-n / backslash-t stay two characters     # incl. characters str.splitlines() would split at
     L = 3 if tier == 'quick' else 4
     for k in range(0, L + 1):
         for t in itertools.product(alpha, repeat=k):
